@@ -99,8 +99,8 @@ def cases(tier, seed):
            # complex Hermitian h_0 whose explicit levels are real basis vectors, real right-hand side
            dict(n=6, blocks=[1], opts={}, layout="localized-complex"),
            dict(n=6, blocks=[1, 1], opts={"atol": 1e-6}, layout="localized-complex")]
-    kpm += [dict(n=8, blocks=[2], opts={"atol": 1e-5}, layout="spin-sigma-y"),
-            dict(n=8, blocks=[2, 2], opts={"atol": 1e-5}, layout="spin-sigma-y"),
+    kpm += [dict(n=24, blocks=[2], opts={"atol": 1e-5}, layout="spin-sigma-y"),
+            dict(n=24, blocks=[2, 2], opts={"atol": 1e-5}, layout="spin-sigma-y"),
             dict(n=6, blocks=[2], opts={"atol": 1e-5}, layout="descending"),
             dict(n=6, blocks=[2, 1], opts={"atol": 1e-5}, layout="descending"),
             dict(n=7, blocks=[1], opts={"atol": 1e-5, "auxiliary_vectors": 3}, layout="descending"),
@@ -441,7 +441,8 @@ def run_kpm(case):
 
     n, blocks = case["n"], case["blocks"]
     opts = dict(case["opts"])
-    h0, E, Rm, Lm = make_problem(n, blocks, "none", "orth", "rr", case["seed"])
+    if case.get("layout") != "spin-sigma-y":
+        h0, E, Rm, Lm = make_problem(n, blocks, "none", "orth", "rr", case["seed"])
     nexp = sum(blocks)
     if case.get("layout") == "localized-complex":
         rng0 = np.random.default_rng([case["seed"], 91])
@@ -458,7 +459,8 @@ def run_kpm(case):
         m = n // 2
         rng0 = np.random.default_rng([case["seed"], 92])
         q, _ = np.linalg.qr(rng0.normal(size=(m, m)))
-        Em = np.array([float(x) for x in (0, 1, 3, 7, 12, 20)[:m]])
+        # one (two) isolated level(s) below a dense band: the expansion needs far more than the first batch of moments
+        Em = np.concatenate([[-3.0], [-1.5] if len(blocks) > 1 else [], np.linspace(0.0, 2.0, m - len(blocks))])
         h0 = np.kron(q @ np.diag(Em) @ q.T, np.eye(2))
         up, dn = np.array([1, 1j]) / np.sqrt(2), np.array([1, -1j]) / np.sqrt(2)
         Rm = np.column_stack([np.kron(q[:, i], sp_) for i in range(m) for sp_ in (up, dn)])
